@@ -1,5 +1,5 @@
 """C20 - diagnostic plotting is free of side effects (totality of matplotlib is not claimed)."""
-from sa.rules import plots
+from sa.rules import plots, exceptions
 
 LEVEL = 'other'
 
@@ -11,6 +11,7 @@ def check(ctx):
     plots.cycles_modulo(ctx, 'C20-R4')
     plots.consumer_tables(ctx, 'C20-R5')
     plots.no_state_between_plots(ctx, 'C20-R6')
+    exceptions.locals_bound_before_use(ctx, 'C20-R7', scope='plots')
     ctx.undecided += ['totality of the matplotlib calls themselves; exact file contents',
                       'that an exception inside the plotting code still closes the figure']
     ctx.assumptions += ['plt.style.context / rc_context restore rcParams on exit, including on exceptions']
